@@ -86,11 +86,79 @@ def copy_protocol(chk, ctx):
                      for k, v in sorted(defined.items())))
 
 
+MAPPING_METHODS = ('__iter__', '__getitem__', '__contains__', '__len__',
+                   'keys', 'values', 'items', 'get', 'to_dict',
+                   'attributes', 'amqp_type')
+
+
+def view_reads_only_arguments(chk, ctx):
+    """The mapping view is computed from the class's name list and the
+    current attribute values: the accessors read no other per-instance
+    state (a copy of the pairs kept by unmarshal(), obj.__dict__ ...)."""
+    import ast
+    prog = ctx.prog
+    roots = [prog.cls('base.Frame'), prog.cls('base.BasicProperties')]
+    hier = [ci for ci in prog.classes.values()
+            if any(prog.is_subclass(r, ci) for r in roots)]
+    class_level = set()
+    for ci in prog.classes.values():
+        if any(prog.is_subclass(ci, r) or prog.is_subclass(r, ci)
+               for r in roots):
+            class_level.update(ci.bindings)
+            class_level.update(ci.methods)
+    class_level.update({'__slots__', '__class__', '__annotations__'})
+    bad = []
+    n = 0
+    for ci in hier:
+        for nm in MAPPING_METHODS:
+            fi = ci.methods.get(nm)
+            if fi is None:
+                continue
+            a = fi.node.args
+            ps = a.posonlyargs + a.args
+            if not ps:
+                continue
+            me = ps[0].arg
+            for x in ast.walk(fi.node):
+                if isinstance(x, ast.Attribute) and isinstance(
+                        x.ctx, ast.Load) and isinstance(x.value, ast.Name) \
+                        and x.value.id == me:
+                    n += 1
+                    if x.attr not in class_level or x.attr == '__dict__':
+                        bad.append('%s reads self.%s at %s:%d' % (
+                            fi.short, x.attr, fi.module.relpath, x.lineno))
+                elif isinstance(x, ast.Call) and isinstance(
+                        x.func, ast.Name) and x.func.id in (
+                            'getattr', 'hasattr', 'vars') and x.args and \
+                        isinstance(x.args[0], ast.Name) and \
+                        x.args[0].id == me:
+                    # getattr(self, '<literal>'): the same read, spelled
+                    # dynamically (a computed name is an argument name)
+                    if x.func.id == 'vars':
+                        bad.append('%s reads vars(self) at %s:%d' % (
+                            fi.short, fi.module.relpath, x.lineno))
+                    elif len(x.args) > 1 and isinstance(
+                            x.args[1], ast.Constant) and isinstance(
+                                x.args[1].value, str):
+                        n += 1
+                        if x.args[1].value not in class_level:
+                            bad.append('%s reads self.%s at %s:%d' % (
+                                fi.short, x.args[1].value,
+                                fi.module.relpath, x.lineno))
+    chk.ob('C19.I', 'accessors read arguments only', not bad,
+           '%d reads of self.<name> in the mapping accessors, all of '
+           'class-level names' % n if not bad else
+           '%s: the view then depends on per-instance state other than the '
+           'current argument values' % '; '.join(bad[:3]),
+           site='pamqp/base.py')
+
+
 def run(chk, ctx):
     for r, t in RULES.items():
         chk.rule(r, t)
     chk.exhaustive = True
     copy_protocol(chk, ctx)
+    view_reads_only_arguments(chk, ctx)
     chk.explanation = (
         'For each of the 65 classes the accessors (__len__, __contains__, '
         '__iter__, __getitem__, attributes, amqp_type), resolved through '
